@@ -865,9 +865,14 @@ class _FuncEval:
 
     def _cond_calls(self, c, p, node):
         """Package functions called while a condition is evaluated are calls made for their effects too."""
-        for x in subterms(c):
+        stack = [c]
+        while stack:
+            x = stack.pop()
+            if x[0] == "elem":
+                continue   # the iterable of an enclosing loop was evaluated at the loop head, not here
             if x[0] == "call" and x in self.summ.precise:
                 self.effect("call", None, None, x, p, node)
+            stack.extend(reversed(tuple(children(x))))
 
     def s_If(self, s, p):
         c = self.ev(s.test, p)
@@ -1454,9 +1459,9 @@ def _inline(te: "TermEval", func: FuncInfo, depth: int, stack: tuple, stop) -> S
                 amap = dict(amap)
                 for n, v in base.final_env.items():
                     amap.setdefault("<free>" + n, v)
-            for ce in (cs.effects if x not in hoisted else ()):
+            for ce in (cs.effects if (x, pc, ctx) not in hoisted else ()):
                 sink.append(_subst_effect(ce, amap, pc, ctx))
-            hoisted.add(x)
+            hoisted.add((x, pc, ctx))
             for k, v in cs.calls.items():
                 k2 = substitute(k, amap)
                 out.calls.setdefault(k2, v)
@@ -1482,18 +1487,41 @@ def _inline(te: "TermEval", func: FuncInfo, depth: int, stack: tuple, stop) -> S
         del out.raises[n_r:]
         return pc2, ctx2
 
+    survived: list = []   # [(call-site pc, call-site ctx, literals)]: a callee that raises under P, called at
+    #                        statement level, lets the code after the call run only under not P
+
+    def after_calls(pc, ctx):
+        extra = ()
+        for spc, sctx, lits in survived:
+            if pc[:len(spc)] == spc and ctx[:len(sctx)] == sctx:
+                extra += tuple(l for l in lits if l not in pc and l not in extra)
+        return extra
+
     for e in base.effects:
         sink: list = []
         pc_x, ctx_x = expand_pc(e.pc, e.ctx)
+        pc_x = pc_x + after_calls(e.pc, e.ctx)
         if e.kind == "raise":
             val = expand(e.value, e.pc, e.ctx, sink)
             out.effects.extend(sink)
             out.effects.append(Effect("raise", None, None, val, pc_x, ctx_x, e.node, e.func))
             continue
+        n_raises = len(out.raises)
         b = expand(e.base, e.pc, e.ctx, sink) if isinstance(e.base, tuple) else e.base
         k = expand(e.key, e.pc, e.ctx, sink) if e.kind == "store_sub" else e.key
         v = expand(e.value, e.pc, e.ctx, sink) if isinstance(e.value, tuple) else e.value
         out.effects.extend(sink)
+        if e.kind == "call" and e.value[0] == "call":
+            tg_ = base.calls.get(e.value) or out.calls.get(e.value)
+            if tg_ and len(tg_) == 1 and e.value in out.precise and tg_[0].is_generator():
+                continue   # creating a generator object has no effect; its body runs where it is iterated
+        # raises of callees expanded here that do not sit in a loop of the callee: afterwards their condition is false
+        for ce in sink:
+            if ce.kind == "raise" and ce.ctx == e.ctx and ce.pc[:len(e.pc)] == e.pc:
+                cond = ce.pc[len(e.pc):]
+                if cond:
+                    negl = literals(("and", cond) if len(cond) > 1 else cond[0], False)
+                    survived.append((e.pc, e.ctx, negl))
         if e.kind == "call" and v[0] != "call":
             continue  # a statement-level package call: replaced by the callee's effects
         out.effects.append(Effect(e.kind, b, k, v, pc_x, ctx_x, e.node, e.func, e.aug))
@@ -1583,7 +1611,7 @@ def _inline(te: "TermEval", func: FuncInfo, depth: int, stack: tuple, stop) -> S
     out.effects = fused
     for pc, t, n in base.returns:
         sink = []
-        out.returns.append((expand_pc(pc, ())[0], expand(t, pc, (), sink), n))
+        out.returns.append((expand_pc(pc, ())[0] + after_calls(pc, ()), expand(t, pc, (), sink), n))
         out.effects.extend(sink)
     for pc, t, n in base.raises:
         out.raises.append((expand_pc(pc, ())[0], t, n))
